@@ -107,7 +107,7 @@ REQS = [
     dict(method="GET", target=b"/ten", headers=[HOSTH], version=b"1.0", framing="none", body=[]),
     dict(method="GET", target=b"/ka10", headers=[HOSTH, (b"Connection", b"keep-alive")], version=b"1.0", framing="none", body=[]),
 ]
-APPS = ["read-then-answer", "answer-before-reading", "never-read-body"]
+APPS = ["read-then-answer", "answer-before-reading", "never-read-body", "start-early-finish-late"]
 
 
 class PipeApp:
@@ -138,7 +138,13 @@ class PipeApp:
                 if not m.get("more_body"):
                     return
 
-        if self.variant == "read-then-answer":
+        if self.variant == "start-early-finish-late":
+            # streaming/echo style: the response head goes out first, the rest after the request body was read
+            await send({"type": "http.response.start", "status": 200, "headers": [(b"content-length", str(len(body)).encode())]})
+            await read_all()
+            await send({"type": "http.response.body", "body": body, "more_body": False})
+            self.log.append(("answered", idx))
+        elif self.variant == "read-then-answer":
             await read_all()
             await answer()
         elif self.variant == "answer-before-reading":
@@ -166,13 +172,13 @@ CUTMAX, CUTMUL = (10, 6) if QUICK else (60, 1)
 
 @harness(
     "C06",
-    dom={"n": (1, 3), "r0": (0, 5), "r1": (0, 5), "r2": (0, 5), "seg": (0, 2), "cut": (0, CUTMAX), "ai": (0, 2), "kmax": (0 if not QUICK else 1, 3)},
+    dom={"n": (1, 3), "r0": (0, 5), "r1": (0, 5), "r2": (0, 5), "seg": (0, 2), "cut": (0, CUTMAX), "ai": (0, 3), "kmax": (0 if not QUICK else 1, 3)},
     split={"r0": "each", "ai": "each"},
     thorough_split={"r0": "each", "ai": "each", "r1": "each"},
     witnesses=[{"n": 3, "r0": 0, "r1": 1, "r2": 2, "seg": 0, "cut": 0, "ai": 0, "kmax": 3}, {"n": 2, "r0": 1, "r1": 3, "r2": 0, "seg": 1, "cut": 5, "ai": 1, "kmax": 1}],
     budget={"quick": 240, "thorough": 900},
     per_path=120,
-    bounds="pipelines of 1..3 requests drawn from 6 templates (body/no body, Connection: close|keep-alive|absent, HTTP/1.0|1.1) x segmentation {all in one read, one cut at any of the first 60 offsets (quick: every 6th), one byte per read for the first 40 bytes} x 3 application variants (read then answer, answer before reading, never read the body) x keep_alive_max_requests in {1,2,1000} (thorough also 3)",
+    bounds="pipelines of 1..3 requests drawn from 6 templates (body/no body, Connection: close|keep-alive|absent, HTTP/1.0|1.1) x segmentation {all in one read, one cut at any of the first 60 offsets (quick: every 6th), one byte per read for the first 40 bytes} x 4 application variants (read then answer, answer before reading, never read the body, response head first and the rest after reading) x keep_alive_max_requests in {1,2,1000} (thorough also 3)",
     encodes=["hypercorn/protocol/h11.py::H11Protocol._handle_events", "hypercorn/protocol/h11.py::H11Protocol._maybe_recycle", "hypercorn/protocol/h11.py::H11Protocol.stream_send",
              "hypercorn/protocol/h11.py::H11Protocol._create_stream", "hypercorn/protocol/http_stream.py::HTTPStream.app_send"],
     stubs=["tier B runtime"],
@@ -189,7 +195,7 @@ def h1_pipeline(n: int, r0: int, r1: int, r2: int, seg: int, cut: int, ai: int, 
         return done(True, skipped="quick tier: three-request pipelines arrive in one read")
     rs = (r0, r1, r2)
     reqs = [REQS[conc(rs[i], 0, 5)] for i in range(n)]
-    ai = conc(ai, 0, 2)
+    ai = conc(ai, 0, 3)
     kmax = [3, 1, 2, 1000][conc(kmax, 0, 3)]
     cutv = 0
     if seg == 1:
@@ -229,7 +235,7 @@ def h1_pipeline(n: int, r0: int, r1: int, r2: int, seg: int, cut: int, ai: int, 
         offset = end
         served += 1
         t_resp = max(t_resp, seg_end(head_end))
-        if APPS[ai] != "read-then-answer" and end > t_resp:
+        if APPS[ai] in ("answer-before-reading", "never-read-body") and end > t_resp:
             early_close = True  # answered while the request body was still arriving: not reusable
             break
         if _asks_close(r) or served >= kmax:
@@ -285,6 +291,11 @@ def h1_pipeline(n: int, r0: int, r1: int, r2: int, seg: int, cut: int, ai: int, 
                     why = "an earlier response announced close but later requests were served"
             if trailing:
                 why = f"bytes after the last response: {trailing[:40]!r}"
+    if not why and conn.server_closed:
+        # the server has closed: nothing of this connection may stay behind (parked reader, send task, application)
+        left = [t.name for t in conn.sched.alive()]
+        if left:
+            why = f"connection closed by the server but tasks are still parked: {left}"
     if not why and conn.sched.errors:
         why = "exception escaped a task: %r" % (conn.sched.errors[0],)
     return done(why == "", reqs=[r["target"] for r in reqs], seg=seg, cut=cutv, app=APPS[ai], kmax=kmax, why=why)
